@@ -769,7 +769,11 @@ def option_args(draw, ctx):
             kwargs.append([k, A.ListVal(draw(st.lists(plain_value(empty), min_size=1, max_size=3)))])
         else:
             kwargs.append([k, draw(plain_value(empty))])
-    return A.Args([], kwargs, False)
+    pos = []
+    if draw(st.integers(0, 7)) == 0:
+        # positional options are ignored with a warning (documented); the keyword options written after them still count
+        pos = draw(st.lists(plain_value(empty), min_size=1, max_size=2))
+    return A.Args(pos, kwargs, False)
 
 
 @dataclass
